@@ -103,7 +103,47 @@ func hexVal(s string) (*big.Int, bool) {
 	return b, true
 }
 
+// multiChainRound: one round's sources on several chains - each entry carries its own source and the answer of the chain its NFT is on
+func multiChainRound(prop string, i int, f []string, res string, br map[string]int) (out []Violation) {
+	ids, owners := strings.Split(f[1], ","), strings.Split(f[2], ",")
+	byChain := map[string]string{}
+	for k, t := range ids {
+		p := strings.SplitN(decTok(t), "/", 2)
+		if _, have := byChain[p[0]]; !have && k < len(owners) {
+			byChain[p[0]] = decTok(owners[k])
+		}
+	}
+	if !strings.HasPrefix(res, "ok ") {
+		return nil
+	}
+	br[strings.ToLower(prop)+":multi-chain-round"]++
+	got := strings.Split(strings.Fields(res)[1], ",")
+	for k, t := range ids {
+		if k >= len(got) {
+			break
+		}
+		id := decTok(t)
+		chain := strings.SplitN(id, "/", 2)[0]
+		e := decTok(got[k])
+		if !strings.HasPrefix(e, id+":") {
+			out = append(out, viol(prop, "entry-names-other-nft", i, "entry %d of the round is %q, its source is %q", k, e, id))
+			continue
+		}
+		ov, ok1 := hexVal(byChain[chain])
+		gv, ok2 := hexVal(strings.TrimPrefix(e, id+":"))
+		if ok1 && ok2 && ov.Cmp(gv) != 0 {
+			out = append(out, viol(prop, "owner-from-other-chain", i, "entry %q carries owner %s, chain %s answered %s: the NFT was looked up on another chain", e, strings.TrimPrefix(e, id+":"), chain, byChain[chain]))
+		}
+	}
+	return out
+}
+
 func pureC19(tr *Trace, br map[string]int) (out []Violation) {
+	for i, st := range tr.Steps {
+		if f := strings.Fields(st.Op); len(f) >= 3 && f[0] == "fmtentries" {
+			out = append(out, multiChainRound("C19", i, f, st.Res, br)...)
+		}
+	}
 	two160 := new(big.Int).Lsh(big.NewInt(1), 160)
 	seen := map[string]*big.Int{}
 	for i, s := range tr.Steps {
@@ -167,6 +207,8 @@ func pureC20(tr *Trace, br map[string]int) (out []Violation) {
 					out = append(out, viol("C20", "hash-mismatch", i, "feeder hash %s differs from chain hash %s for salt %s data %s", s.Res, tr.Steps[i-1].Res, f[1], f[2]))
 				}
 			}
+		case "fmtentries":
+			out = append(out, multiChainRound("C20", i, f, s.Res, br)...)
 		case "parseentry":
 			if i < 2 || !strings.HasPrefix(tr.Steps[i-1].Op, "fmtentry ") || !strings.HasPrefix(tr.Steps[i-2].Op, "parsenft ") {
 				continue
